@@ -68,6 +68,20 @@ impl Box {
 /// native_tls.rs `pub struct TlsStream<IO>(tokio_native_tls::TlsStream<IO>);` (a tuple struct: re-declared)
 #[verifier::reject_recursive_types(IO)]
 pub struct TlsStream<IO>(pub tokio_native_tls::TlsStream<IO>);
+pub type InnerTls<IO> = tokio_native_tls::TlsStream<IO>;
+/// `get_ref().get_ref().get_ref()`: tokio_native_tls::TlsStream -> native_tls::TlsStream<AllowStd<IO>> -> AllowStd<IO> -> IO
+#[verifier::external_body]
+#[verifier::reject_recursive_types(IO)]
+pub struct NativeInner<IO> { _p: core::marker::PhantomData<IO> }
+#[verifier::external_body]
+#[verifier::reject_recursive_types(IO)]
+pub struct AllowStd<IO> { _p: core::marker::PhantomData<IO> }
+impl<IO> NativeInner<IO> { pub uninterp spec fn sock(&self) -> IO; #[verifier::external_body] pub fn get_ref(&self) -> (r: &AllowStd<IO>) ensures r.sock() == self.sock() { unimplemented!() } }
+impl<IO> AllowStd<IO> { pub uninterp spec fn sock(&self) -> IO; #[verifier::external_body] pub fn get_ref(&self) -> (r: &IO) ensures *r == self.sock() { unimplemented!() } }
+impl<IO> tokio_native_tls::TlsStream<IO> {
+    #[verifier::external_body]
+    pub fn get_ref(&self) -> (r: &NativeInner<IO>) ensures r.sock() == self.sock() { unimplemented!() }
+}
 //@check_struct file=actix-tls/src/accept/native_tls.rs name=AcceptorService fields=acceptor,conns,handshake_timeout
 //@extract_type file=actix-tls/src/accept/native_tls.rs item="struct AcceptorService"
 
@@ -126,5 +140,58 @@ impl AcceptorService {
         assert(dur == self.handshake_timeout);   // [C18]
 //@end
 }
+// ===================================================================== the wrapper forwards every I/O operation unchanged (C18: data intact)
+//@include ../common/tls_stream.rs
+impl<IO: ActixStream> TlsStream<IO> {
+//@extract file=actix-tls/src/accept/native_tls.rs item="impl<IO: ActixStream> AsyncRead for TlsStream<IO> / fn poll_read" ret=r props=C18 name=stream::poll_read alias_get_mut
+//@spec
+    ensures
+        // exactly the TLS session's own read: the bytes appended to `buf` are the next plaintext bytes, none lost, none invented   [C18]
+        r matches Poll::Ready(Ok(_)) ==> exists|n: int| 0 <= n <= old(self).0.plain_in().len()
+            && final(buf).filled() == old(buf).filled() + #[trigger] old(self).0.plain_in().subrange(0, n)
+            && final(self).0.plain_in() == old(self).0.plain_in().subrange(n, old(self).0.plain_in().len() as int),
+        !(r matches Poll::Ready(Ok(_))) ==> final(buf).filled() == old(buf).filled() && final(self).0.plain_in() == old(self).0.plain_in(),
+        final(self).0.plain_out() == old(self).0.plain_out(),
+//@end
+//@extract file=actix-tls/src/accept/native_tls.rs item="impl<IO: ActixStream> AsyncWrite for TlsStream<IO> / fn poll_write" ret=r props=C18 name=stream::poll_write alias_get_mut
+//@spec
+    ensures
+        // exactly the accepted prefix of `buf` is handed to the TLS session, in order   [C18]
+        r matches Poll::Ready(Ok(n)) ==> n <= buf@.len() && final(self).0.plain_out() == old(self).0.plain_out() + buf@.subrange(0, n as int),
+        !(r matches Poll::Ready(Ok(_))) ==> final(self).0.plain_out() == old(self).0.plain_out(),
+        final(self).0.plain_in() == old(self).0.plain_in(),
+//@end
+//@extract file=actix-tls/src/accept/native_tls.rs item="impl<IO: ActixStream> AsyncWrite for TlsStream<IO> / fn poll_flush" ret=r props=C18 name=stream::poll_flush alias_get_mut
+//@spec
+    ensures final(self).0.plain_out() == old(self).0.plain_out(), final(self).0.plain_in() == old(self).0.plain_in(),
+            r matches Poll::Ready(Ok(_)) ==> final(self).0.flushed(),   // [C18]
+//@end
+//@extract file=actix-tls/src/accept/native_tls.rs item="impl<IO: ActixStream> AsyncWrite for TlsStream<IO> / fn poll_shutdown" ret=r props=C18 name=stream::poll_shutdown alias_get_mut
+//@spec
+    ensures final(self).0.plain_out() == old(self).0.plain_out(), final(self).0.plain_in() == old(self).0.plain_in(),
+            r matches Poll::Ready(Ok(_)) ==> final(self).0.shut(),   // [C18]
+//@end
+//@extract file=actix-tls/src/accept/native_tls.rs item="impl<IO: ActixStream> AsyncWrite for TlsStream<IO> / fn poll_write_vectored" ret=r props=C18 name=stream::poll_write_vectored alias_get_mut
+//@spec
+    ensures
+        r matches Poll::Ready(Ok(n)) ==> n <= io_slices_bytes(bufs).len() && final(self).0.plain_out() == old(self).0.plain_out() + io_slices_bytes(bufs).subrange(0, n as int),   // [C18]
+        !(r matches Poll::Ready(Ok(_))) ==> final(self).0.plain_out() == old(self).0.plain_out(),
+        final(self).0.plain_in() == old(self).0.plain_in(),
+//@end
+//@extract file=actix-tls/src/accept/native_tls.rs item="impl<IO: ActixStream> AsyncWrite for TlsStream<IO> / fn is_write_vectored" ret=r props=C18 name=stream::is_write_vectored
+//@spec
+    ensures r == self.0.vectored(),
+//@end
+//@extract file=actix-tls/src/accept/native_tls.rs item="impl<IO: ActixStream> ActixStream for TlsStream<IO> / fn poll_read_ready" ret=r props=C18 name=stream::poll_read_ready
+//@spec
+    ensures r == self.0.sock().next_read_ready(),   // [C18] readiness is the underlying socket's
+//@end
+//@extract file=actix-tls/src/accept/native_tls.rs item="impl<IO: ActixStream> ActixStream for TlsStream<IO> / fn poll_write_ready" ret=r props=C18 name=stream::poll_write_ready
+//@spec
+    ensures r == self.0.sock().next_write_ready(),   // [C18]
+//@end
+}
+
+
 } // verus!
 fn main() {}
